@@ -48,10 +48,11 @@ _AEH_WEAK = [
     "forall(Node, Node, lambda a, b: implies(((a, b) in self._graph.inh) and not ((a, b) in old(self)._graph.inh), aeh_pair(old(self)._level_limit, parent_modules, old(child), a, b) and ((a, b) in self._graph.edges)))",
     "forall(Node, Node, lambda a, b: implies(((a, b) in self._graph.edges) and not ((a, b) in old(self)._graph.edges), (a, b) in self._graph.inh))",
     # when the parents are dotted ancestors of the child (both call sites), a new (inheriting) edge joins the flattened names of an ancestor and of an ancestor-or-self of the child
-    "implies(forall(Int, lambda j: implies(0 <= j and j < len(parent_modules), name_anc(seq_at(parent_modules, j), old(child)))), "
-    "forall(Node, Node, lambda a, b: implies(((a, b) in self._graph.edges) and not ((a, b) in old(self)._graph.edges), a != b and hier_pair(old(self)._level_limit, old(child), a, b))))",
-    "implies(forall(Int, lambda j: implies(0 <= j and j < len(parent_modules), name_anc(seq_at(parent_modules, j), old(child)))), "
-    "forall(Node, Node, lambda a, b: implies(((a, b) in self._graph.inh) and not ((a, b) in old(self)._graph.inh), a != b and hier_pair(old(self)._level_limit, old(child), a, b))))",
+    # (stated in prenex form -- "... or some parent is not an ancestor of the child" -- so that a caller needs no quantified antecedent)
+    "forall(Node, Node, lambda a, b: implies(((a, b) in self._graph.edges) and not ((a, b) in old(self)._graph.edges), "
+    "(a != b and hier_pair(old(self)._level_limit, old(child), a, b)) or exists(Int, lambda j: 0 <= j and j < len(parent_modules) and not name_anc(seq_at(parent_modules, j), old(child)))))",
+    "forall(Node, Node, lambda a, b: implies(((a, b) in self._graph.inh) and not ((a, b) in old(self)._graph.inh), "
+    "(a != b and hier_pair(old(self)._level_limit, old(child), a, b)) or exists(Int, lambda j: 0 <= j and j < len(parent_modules) and not name_anc(seq_at(parent_modules, j), old(child)))))",
     # the child is linked to the LAST parent whenever the child is a node already
     "implies(len(parent_modules) > 0 and (flat(old(self)._level_limit, old(child)) in old(self)._graph.nodes) and "
     "flat(old(self)._level_limit, seq_at(parent_modules, len(parent_modules) - 1)) != flat(old(self)._level_limit, old(child)), "
@@ -98,7 +99,8 @@ _AAM = [
     "forall(Node, Node, lambda a, b: implies((a, b) in old(self)._graph.inh, (a, b) in self._graph.inh))",
     "forall(Node, Node, lambda a, b: implies(((a, b) in self._graph.edges) and not ((a, b) in old(self)._graph.edges), chain_pair(old(self)._level_limit, %M%, a, b)))",
     "forall(Node, Node, lambda a, b: implies(((a, b) in self._graph.edges) and not ((a, b) in old(self)._graph.edges), (a in self._graph.nodes) and (b in self._graph.nodes)))",
-    "forall(Node, Node, lambda a, b: implies(((a, b) in self._graph.inh) and not ((a, b) in old(self)._graph.inh), chain_pair(old(self)._level_limit, %M%, a, b) and ((a, b) in self._graph.edges)))",
+    "forall(Node, Node, lambda a, b: implies(((a, b) in self._graph.inh) and not ((a, b) in old(self)._graph.inh), chain_pair(old(self)._level_limit, %M%, a, b)))",
+    "forall(Node, Node, lambda a, b: implies(((a, b) in self._graph.inh) and not ((a, b) in old(self)._graph.inh), (a, b) in self._graph.edges))",
     "forall(Node, Node, lambda a, b: implies(((a, b) in self._graph.edges) and not ((a, b) in old(self)._graph.edges), (a, b) in self._graph.inh))",
 ]
 REG.add(Contract(f"{NG}._add_all_modules_as_nodes", module=M_NX, kind="method", params=dict(self=NG), returns="None", modifies=["self"],
@@ -125,8 +127,7 @@ for _m, _f in (("importer_parent_modules", "impn_importer"), ("importee_parent_m
                      note="the stored get_parent_modules(...) list: its elements are the strict dotted ancestors"))
 vals.OBJ_LAYOUT[NG]["_imports"] = vals.parse_type("Bag[Opaque[ImportN]]")
 
-# where a hierarchy pair may come from: a module of all_modules, an importer, an importee
-REG.macro("init_src", ["all", "I", "m"], "(m in all) or exists(Opaque[ImportN], lambda i: (i in I) and (m == impn_importer(i) or m == impn_importee(i)))")
+# a hierarchy pair comes from the chain of a module of all_modules, of an importer or of an importee
 REG.macro("init_hpair", ["lim", "all", "I", "a", "b"],
           "a != b and (exists(Node, lambda m: (m in all) and hier_pair(lim, m, a, b)) or "
           "exists(Opaque[ImportN], lambda i: (i in I) and (hier_pair(lim, impn_importer(i), a, b) or hier_pair(lim, impn_importee(i), a, b))))")
